@@ -166,6 +166,33 @@ def run(ck, ctx):
     # ---------------------------------------------------------------- R08.4 effective angle
     def r084():
         thr_n = cfgnode(thr)
+        # PE / threshold is a true division.  np.reciprocal of a bare configuration scalar is the integer reciprocal (0)
+        # whenever the setting is a whole number held as an int - which a float-typed field does hold after plain
+        # attribute assignment, model_copy(update=...) or model_construct (the models do not validate assignments)
+        try:
+            cfg_src = I.module("nuspacesim.config").src
+        except Exception:           # noqa: BLE001
+            cfg_src = ""
+        import re as _re
+        if not _re.search(r"validate_assignment\s*=\s*True", cfg_src):
+            def bare_setting(n, depth=0):
+                if depth > 8:
+                    return False
+                if n.op == "Cfg":
+                    return True
+                if n.op == "Const":
+                    return isinstance(n.attr, int) and not isinstance(n.attr, bool)
+                if n.op == "BinOp" and n.attr in ("Add", "Sub", "Mult", "Pow", "FloorDiv"):
+                    return all(bare_setting(a_, depth + 1) for a_ in n.args) and \
+                        any(a_.op != "Const" for a_ in n.args)
+                return False
+            for n in walk([costh]):
+                if is_ext_call(n, "numpy.reciprocal") and len(n.args) >= 2 and bare_setting(n.args[1]) and \
+                        any(x.op == "Cfg" for x in walk([n.args[1]])):
+                    ck.ob("R08.4", f"PE / threshold is a true division [np.reciprocal at {n.where()}]", False, n, func,
+                          f"np.reciprocal({g.show(n.args[1], 2)}): 0 for a whole-number setting held as an int (settings "
+                          "assigned on the configuration object are not coerced to float), the enhancement then never "
+                          "switches on", construct="EAS.__call__: np.reciprocal of a configuration scalar")
         ok_outer = is_ext_call(costh, "numpy.cos") and is_ext_call(costh.args[1], "numpy.radians", "numpy.deg2rad")
         ck.ob("R08.4", "returned cosine == cos(radians(effective angle))", ok_outer, costh, func, g.show(costh, 3))
         eff = costh.args[1].args[1] if ok_outer else None
